@@ -1,6 +1,7 @@
 import JediModel.Proto
 import JediModel.Model.Refactor
 import JediModel.Model.ExtractIO
+import JediModel.Model.NonExtractable
 import JediModel.Gen.C06
 open Lean Proto JediModel.Text JediModel.Tree JediModel.Refactor
 
@@ -29,6 +30,22 @@ def optChars (j : Json) (k : String) : Option Str :=
   | .ok (.str s) => some s.toList
   | _ => none
 
+/-- a list of parso nodes (json: {"k": "leaf", "v": value} | {"k": "loop", "b": [...], "e": [...]} |
+{"k": "scope" | "other", "c": [...]}) as a forest -/
+partial def parseSel : List Json → JediModel.NonExtractable.Sel
+  | [] => .done
+  | j :: rest =>
+    match str j "k" with
+    | "leaf" => .leaf (str j "v") (parseSel rest)
+    | "loop" => .loop (parseSel (arr j "b")) (parseSel (arr j "e")) (parseSel rest)
+    | "scope" => .scope (parseSel (arr j "c")) (parseSel rest)
+    | _ => .other (parseSel (arr j "c")) (parseSel rest)
+
+def checkProg : Option JediModel.NonExtractable.Prog :=
+  JediModel.NonExtractable.Prog.decode JediModel.Gen.C06.checkAlwaysRefused JediModel.Gen.C06.checkJumpKeywords
+    JediModel.Gen.C06.checkLoopBranch JediModel.Gen.C06.checkScopeBranch JediModel.Gen.C06.checkOtherBranch
+    JediModel.Gen.C06.checkTail
+
 def handle (j : Json) : Json :=
   match str j "op" with
   | "table" =>
@@ -54,6 +71,13 @@ def handle (j : Json) : Json :=
       { value := str o "value", isDef := bool o "is_def", augTarget := bool o "aug", outer := bool o "outer" }
     let st := JediModel.ExtractIO.findInputsOutputs ⟨JediModel.Gen.C06.extractReadsAugTarget⟩ occs
     jobj [("inputs", jarr (st.inputs.map jstr)), ("outputs", jarr (st.outputs.map jstr))]
+  | "nonextractable" =>
+    match checkProg with
+    | none => jobj [("error", jstr "the translated _check_for_non_extractables does not decode")]
+    | some P =>
+      let sel := parseSel (arr j "nodes")
+      jobj [("refused", jbool (JediModel.NonExtractable.refuses P sel)),
+            ("loose", jbool (JediModel.NonExtractable.loose sel false))]
   | op => jobj [("error", jstr ("unknown op " ++ op))]
 
 def main : IO Unit := Proto.run handle
